@@ -97,7 +97,7 @@ fn parse_exchange_rates_eu(exchange_rates: &str) -> Result<Vec<(String, f64)>, E
 			continue;
 		}
 		let l = l.strip_prefix("<Cube currency='").ok_or(err)?;
-		let (currency, l) = l.split_at(3);
+		let (currency, l) = l.split_at_checked(3).ok_or(err)?;
 		let l = l.trim_start_matches("' rate='");
 		let exchange_rate_eur = l.split_at(l.find('\'').ok_or(err)?).0;
 		let exchange_rate_eur = exchange_rate_eur.parse::<f64>()?;
